@@ -135,17 +135,48 @@ Print Assumptions C08_spec_meaning.
 
 (* the calendar oracle run over implementation traces accepts what the model computes for a zone without
    transitions, in either form, outside what is left of F-C08-b (no range of a day before the loop's first day reaches
-   a probe) *)
-Theorem C08_calendar_oracle_accepts_model_partial : forall c rnd lb ranges prefer incs excs b e clear probes pre,
+   a probe), whenever the probes of the case cover what the written ranges ask for (allr = the ranges of every period of the case) *)
+Theorem C08_calendar_oracle_accepts_model_partial : forall c rnd lb allr ranges prefer incs excs b e clear probes pre,
   tp_ranges_bounded ranges ->
   let off := fun _ : Z => c in
   let mk := fun l : Z => l - c in
   let post := tp_update_region true (tp_script_func off mk rnd lb ranges) prefer incs excs b e clear pre in
+  tp_probes_cover probes (tp_spec_bounds c [] allr (tp_upd_begin b clear pre) e) = true ->
   (forall t d, In t probes -> tp_upd_begin b clear pre <= t < e ->
                d < tp_first_day off lb (tp_upd_begin b clear pre) -> tp_day_covers off mk false ranges d t = false) ->
-  tp_cal_step_ok c [] ranges prefer incs excs b e clear probes pre post (map (tp_is_inside post) probes) = None.
+  tp_cal_step_ok c [] allr ranges prefer incs excs b e clear probes pre post (map (tp_is_inside post) probes) = None.
 Proof. exact tp_cal_step_ok_model_const. Qed.
 Print Assumptions C08_calendar_oracle_accepts_model_partial.
+
+(* the oracle decides on the implementation's IsInside answers: for ANY observation (segments, window, answers - nothing
+   is assumed about where they come from) of an UpdateRegion call that is not the early return, an answer at a probe of
+   the computed window [b', e) that differs from the statement
+       prefer_includes ? (own /\ ~E) \/ I : (own \/ I) /\ ~E,   own = wall-clock statement over the WRITTEN ranges
+   makes the oracle report the step (any time zone table) *)
+Theorem C08_oracle_rejects_wrong_answer : forall base tab allr ranges prefer incs excs b e clear probes pre post ins t o,
+  (negb clear && (e <? tp_ve_num pre)) = false ->
+  In (t, o) (combine probes ins) ->
+  tp_upd_begin b clear pre <= t < e ->
+  o <> tp_region_spec prefer (tp_spec_inside (tp_tab_off base tab) (tp_tab_mk base tab) false None tp_back ranges t)
+                      (tp_inside_any incs t) (tp_inside_any excs t) ->
+  tp_cal_step_ok base tab allr ranges prefer incs excs b e clear probes pre post ins <> None.
+Proof. exact tp_cal_step_rejects_wrong_answer. Qed.
+Print Assumptions C08_oracle_rejects_wrong_answer.
+
+(* ... at instants chosen from the specification: it reports the step (class "probes") unless the probes contain both
+   boundaries of every written time range of every period of the case on every day that can reach the window, the two
+   neighbours of each, and an instant in the middle half of every gap between consecutive boundaries *)
+Theorem C08_oracle_needs_spec_probes : forall base tab allr ranges prefer incs excs b e clear probes pre post ins,
+  (negb clear && (e <? tp_ve_num pre)) = false ->
+  tp_probes_cover probes (tp_spec_bounds base tab allr (tp_upd_begin b clear pre) e) = false ->
+  tp_cal_step_ok base tab allr ranges prefer incs excs b e clear probes pre post ins <> None.
+Proof. exact tp_cal_step_needs_spec_probes. Qed.
+Print Assumptions C08_oracle_needs_spec_probes.
+
+Theorem C08_probes_cover_meaning : forall probes bounds u,
+  tp_probes_cover probes bounds = true -> In u bounds -> In (u - 1) probes /\ In u probes /\ In (u + 1) probes.
+Proof. exact tp_probes_cover_bounds. Qed.
+Print Assumptions C08_probes_cover_meaning.
 
 (* ---------------- M2 across DST transitions (23 h / 25 h days) ----------------
    off : UTC offset in force at a UTC instant, with the hypotheses of DESIGN section 2 C08: |off| < 24 h, two
